@@ -1144,6 +1144,23 @@ func engineIX(w *World, tier string) *EngineResult {
 				r.add(Obligation{Rule: "IX", Func: fnKey(fn), Construct: s.desc, Verdict: Holds, Detail: "reviewed exception", Pos: pos, Reviewed: why})
 				continue
 			}
+			// the indexed text is a parameter (a helper with a precondition): the obligation
+			// belongs to the call sites; those that establish it are fine, the others are
+			// reported — or reviewed — in the caller, named after the argument they pass
+			if blamed, ok := c.blameCallers(fn, s); ok {
+				nGuarded++
+				r.holds("IX", fnKey(fn), s.desc, fmt.Sprintf("precondition on a parameter: %d call site(s) carry the obligation", len(blamed)), pos)
+				for _, bl := range blamed {
+					bkey := "IX|" + fnKey(bl.caller) + "|" + bl.construct
+					if why, ok := ixReviewed[bkey]; ok {
+						r.Reviewed[bkey] = why
+						r.add(Obligation{Rule: "IX", Func: fnKey(bl.caller), Construct: bl.construct, Verdict: Holds, Detail: "reviewed exception", Pos: bl.pos, Reviewed: why})
+						continue
+					}
+					r.violated("IX", fnKey(bl.caller), bl.construct, fmt.Sprintf("passes a text to %s, which needs len ≥ %d (%s), but only len ≥ %d is established at the call", fnKey(fn), s.need, s.desc, bl.have), bl.pos)
+				}
+				continue
+			}
 			r.violated("IX", fnKey(fn), s.desc, fmt.Sprintf("needs len ≥ %d but only len ≥ %d is established on the paths reaching it", s.need, have), pos)
 		}
 	}
@@ -1302,6 +1319,80 @@ func (c *ixCtx) callerGuards(node interface{}, fn *ssa.Function, s ixSite) (bool
 	}
 	sort.Strings(chain)
 	return true, fmt.Sprintf("established by every caller: %s", strings.Join(dedupe(chain), "; "))
+}
+
+type ixBlame struct {
+	caller    *ssa.Function
+	construct string
+	pos       string
+	have      int
+}
+
+// blameCallers: the base of site s is a parameter of fn and every caller is a static call.
+// Returns the call sites that do not establish the bound, each with a construct that names
+// the access the way it would read had the helper been inlined there.
+func (c *ixCtx) blameCallers(fn *ssa.Function, s ixSite) ([]ixBlame, bool) {
+	pi := -1
+	for i, p := range fn.Params {
+		if s.base == ssa.Value(p) {
+			pi = i
+		}
+	}
+	if pi < 0 {
+		return nil, false
+	}
+	n := c.w.CallGraph().Nodes[fn]
+	if n == nil || len(n.In) == 0 {
+		return nil, false
+	}
+	kind := strings.SplitN(s.desc, " ", 2)[0]
+	rest := ""
+	if parts := strings.SplitN(s.desc, " ", 2); len(parts) == 2 {
+		rest = parts[1]
+	}
+	pname := fn.Params[pi].Name()
+	var out []ixBlame
+	for _, in := range n.In {
+		site, ok := in.Site.(*ssa.Call)
+		if !ok || site.Call.StaticCallee() != fn || pi >= len(site.Call.Args) {
+			return nil, false
+		}
+		caller := in.Caller.Func
+		facts := c.factsBefore(caller, site)
+		arg := site.Call.Args[pi]
+		have := c.minLen(arg, facts, nil, map[ssa.Value]bool{}, true, 0)
+		if k := c.exprKey(arg, nil, 1); facts[k] > have {
+			have = facts[k]
+		}
+		if have < s.need {
+			if k, nn := c.normaliseReq(arg, s.need, nil, 0); facts[k] >= nn {
+				have = s.need
+			}
+		}
+		if have >= s.need {
+			continue
+		}
+		// name the access after the argument expression
+		argText := "?"
+		ai := pi
+		if fn.Signature.Recv() != nil {
+			ai = pi - 1 // the receiver is not among the syntactic arguments
+		}
+		if as := c.w.callArgsAt(site.Call.Pos()); ai >= 0 && ai < len(as) {
+			argText = as[ai]
+		}
+		text := identWordRe(pname).ReplaceAllString(rest, argText)
+		top := caller
+		for top.Parent() != nil {
+			top = top.Parent()
+		}
+		out = append(out, ixBlame{caller: top, construct: kind + " " + text, pos: c.w.pos(instrPos(site)), have: have})
+	}
+	return out, true
+}
+
+func identWordRe(name string) *regexp.Regexp {
+	return regexp.MustCompile(`\b` + regexp.QuoteMeta(name) + `\b`)
 }
 
 func (c *ixCtx) requireAtCallers(fn *ssa.Function, tmpl string, need int, depth int, seen map[*ssa.Function]bool, chain *[]string) bool {
